@@ -98,15 +98,6 @@ impl<T: Gen + Eq + std::hash::Hash> Gen for HashSet<T> {
 impl<T: Gen, const N: usize> Gen for [T; N] {
     fn gen(r: &mut Rng, fx: &Fx) -> Self { std::array::from_fn(|_| T::gen(r, fx)) }
 }
-impl<L: Gen, R: Gen> Gen for either::Either<L, R> {
-    fn gen(r: &mut Rng, fx: &Fx) -> Self {
-        if r.chance(1, 2) {
-            either::Either::Left(L::gen(r, fx))
-        } else {
-            either::Either::Right(R::gen(r, fx))
-        }
-    }
-}
 impl Gen for chrono::DateTime<chrono::Utc> {
     fn gen(r: &mut Rng, _: &Fx) -> Self {
         loop {
@@ -309,8 +300,14 @@ impl Gen for ed25519_dalek::Signature {
 macro_rules! gen_from_u64 {
     ($($t:ty),*) => {$( impl Gen for $t { fn gen(r: &mut Rng, _: &Fx) -> Self { <$t>::from(r.u64v()) } } )*};
 }
-gen_from_u64!(SlotDuration, DurationSeconds, BakerId, DelegatorId, Slot, Epoch, Round, Nonce, UpdateSequenceNumber, BlockHeight, AbsoluteBlockHeight, AccountIndex, Energy, FinalizationIndex);
+gen_from_u64!(SlotDuration, DurationSeconds, Slot, Epoch, Round, Nonce, UpdateSequenceNumber, BlockHeight, AbsoluteBlockHeight, AccountIndex, Energy, FinalizationIndex);
 
+impl Gen for BakerId {
+    fn gen(r: &mut Rng, fx: &Fx) -> Self { BakerId::from(AccountIndex::gen(r, fx)) }
+}
+impl Gen for DelegatorId {
+    fn gen(r: &mut Rng, fx: &Fx) -> Self { DelegatorId::from(AccountIndex::gen(r, fx)) }
+}
 impl Gen for CredentialsPerBlockLimit {
     fn gen(r: &mut Rng, _: &Fx) -> Self { CredentialsPerBlockLimit::from(r.u64v() as u16) }
 }
@@ -491,7 +488,6 @@ pub fn registry() -> Vec<Entry> {
     ent!(v, "(u8,u32)", (u8, u32), eq);
     ent!(v, "(u16,bool,u64)", (u16, bool, u64), eq);
     ent!(v, "Option<u64>", Option<u64>, eq);
-    ent!(v, "Either<u16,String>", either::Either<u16, String>, eq);
     ent!(v, "[u16;5]", [u16; 5], eq);
     {
         ent!(v, "HashSet<u32>", HashSet<u32>, eq, set_like = true);
